@@ -5,6 +5,7 @@ import (
 	"encoding/json"
 	"fmt"
 	"math/rand"
+	"regexp"
 	"strings"
 
 	"github.com/evolbioinfo/gotree/io/nexus"
@@ -228,6 +229,11 @@ func runC13(c *Ctx, idx int, o *Obs) {
 	// (the writer's own layout: one "key name" pair per line, no commas, ';' on a line of its own)
 	if nx, err := nexus.WriteNexus(chanOf(mkTrees()...), true); err == nil {
 		layout, nx2 := relayoutNexus(r, nx)
+		if r.Intn(4) == 0 {
+			// replicate files give every tree the same name: they are still so many trees
+			nx2 = regexp.MustCompile(`(?m)^(\s*)(TREE|tree) tree[0-9]+ =`).ReplaceAllString(nx2, "${1}${2} rep =")
+			layout += ", all trees under one name"
+		}
 		o.AddSet("nexus_layouts", layout)
 		what := "Nexus with translate table, layout " + layout
 		n, err := nexus.NewParser(strings.NewReader(nx2)).Parse()
@@ -361,6 +367,11 @@ func runC13(c *Ctx, idx int, o *Obs) {
 	// ---- the reformat commands ------------------------------------------------------------------
 	if idx%6 == 0 {
 		f := tmpFile(c, "in.nw", doc)
+		// the input file as it is, gzipped, or gzipped in two members ("cat a.gz b.gz"): always the same trees
+		if ia, _, im := presentTrees(c, r, "in-alt", texts, false); im == "gz" || im == "gz-two-members" || im == "file-crlf" || im == "file-no-final-newline" {
+			f = ia[1]
+			o.Ev("cli_input:"+im, 1)
+		}
 		for _, tr := range [][]string{{"reformat", "nexus", "-i", f}, {"reformat", "nexus", "-i", f, "--translate"}, {"reformat", "phyloxml", "-i", f}} {
 			res := runCLI(c, "", tr...)
 			o.Ev("cli", 1)
